@@ -54,7 +54,8 @@ def plan(tier, seed):
 def floors(tier):
     return {"distinct_nontrivial": 400, "cls:quant:an": 400, "cls:quant:the": 300, "cls:quant:infer": 300,
             "cls:head": 500, "cls:tag:fpred": 300, "cls:tag:cpred": 300, "cls:tag:hastype": 100, "predicate_calls": 5000,
-            "cls:ambient_changes_between_results": 300, "cls:query_as_domain": 100, "cls:predicate_that_runs_a_query_of_its_own": 300}
+            "cls:ambient_changes_between_results": 300, "cls:query_as_domain": 100, "cls:predicate_that_runs_a_query_of_its_own": 300,
+            "cls:operand_is_an_independent_subquery": 300}
 
 
 def _has_pred(c):
@@ -82,6 +83,16 @@ def cases(spec, ctx):
         case = {"world": world, "kinds": kinds, "cond": cond, "quant": quant, "head": head, "k_expr": k_expr,
                 "caching": rng.random() < 0.75}
         # the ambient mode may also change WHILE the result iterator is being consumed: one mode per next() call
+        if rng.random() < 0.25:
+            # an operand that is a nested the(...) query of its own (no variable shared with the rest of the query) whose
+            # condition is a Predicate subclass calling a function predicate
+            lits = C.with_single_solution_subquery(rng, cond, D.build_world(world), flavours=("the_pred", "the_pred", "the", "an"))
+            if not lits:
+                vi = rng.randrange(nv)
+                extra = ["cmp", rng.choice(["<=", ">=", "!="]), ["v", vi, [["a", rng.choice("ab")]]], ["lit", 2]]
+                lits = C.with_single_solution_subquery(rng, extra, D.build_world(world), flavours=("the_pred",))
+                case["cond"] = cond = ["and", cond, extra]
+            case["subquery_operands"] = lits
         case["schedule"] = [rng.choice(MODES) for _ in range(6)] if quant != "the" and rng.random() < 0.5 else None
         # the variable's domain may itself be a query (evaluated lazily, during the outer evaluation)
         if nv == 1 and not head and rng.random() < 0.35:
@@ -134,6 +145,7 @@ def run(case, world, mode):
     m = H.labels_of(world)
     doms = H.domains(world, case["kinds"])
     Q = {"an": an, "the": the, "infer": infer}[case["quant"]]
+    C.CUR_WORLD = world
     (enable_caching if case["caching"] else disable_caching)()
     try:
         if case["head"]:
@@ -197,6 +209,8 @@ def check_case(case, ctx):
     world = D.build_world(case["world"])
     exp = expected(case, world)
     ctx.cls("cls:quant:" + case["quant"])
+    if case.get("subquery_operands"):
+        ctx.cls("cls:operand_is_an_independent_subquery")
     if case["head"]:
         ctx.cls("cls:head")
     if case.get("schedule"):
